@@ -146,7 +146,8 @@ impl MoveGen {
             };
         }
 
-        len
+        // the promotion pieces already yielded for the destination in progress
+        len.saturating_sub(NUM_PROMOTION_PIECES - self.promotions.len())
     }
 
     /// Never move to any position marked in the mask
